@@ -79,12 +79,13 @@ Qed.
 Lemma sorted_set_In x l : In x (sorted_set l) <-> In x l.
 Proof. unfold sorted_set. rewrite sort_strings_In. apply dedup_In. Qed.
 
-Lemma class_bases_In b ms kept :
-  In b (class_bases ms kept []) -> b = "BaseModel" \/ exists m, In m kept /\ b = pascal_s m.
+Lemma class_bases_In b ms kept eb :
+  In b (class_bases ms kept eb) -> b = "BaseModel" \/ (exists m, In m kept /\ b = pascal_s m) \/ In b eb.
 Proof.
-  unfold class_bases. rewrite app_nil_r. destruct ms as [|m0 ms].
-  - intros [H | []]. left. auto.
-  - intro H. apply in_map_iff in H. destruct H as [m [E Hm]]. right. exists m.
+  unfold class_bases. intro H. apply in_app_or in H as [H | H]; [| right; right; exact H].
+  destruct ms as [|m0 ms].
+  - destruct H as [H | []]. left. auto.
+  - apply in_map_iff in H. destruct H as [m [E Hm]]. right. left. exists m.
     split; [apply sorted_set_In, Hm | auto].
 Qed.
 
@@ -196,7 +197,7 @@ Definition reach_ok (fuel : nat) (S : schema) (frs : list fragdef) (ms : list st
   | Err _ => false
   end.
 
-Fixpoint sels_okM (fuel : nat) (cov : bool) (C : cfg) (S : schema) (frs : list fragdef)
+Fixpoint sels_okM (fuel : nat) (cov : bool) (C : cfg) (S : schema) (frs : list fragdef) (mx : list string)
          (top abs : bool) (rt r : string) (sels : list sel) : bool :=
   match fuel with
   | O => false
@@ -210,12 +211,12 @@ Fixpoint sels_okM (fuel : nat) (cov : bool) (C : cfg) (S : schema) (frs : list f
              | None => false
              end
            else true) &&
-          forallb (field_ok (sels_okM g cov C S frs true) g cov S abs rt r) fns &&
+          forallb (field_ok (sels_okM g cov C S frs mx true) g cov S mx abs rt r) fns &&
           forallb (fun m => match lookup_frag frs m with
                             | Some fm =>
-                                (match fr_mixins fm with [] => true | _ => false end) &&
+                                forallb (fun b => mem b mx) (fr_mixins fm) &&
                                 negb (unpack_fragment S fm None) &&
-                                sels_okM g cov C S frs false false rt (fr_on fm) (fr_sel fm)
+                                sels_okM g cov C S frs mx false false rt (fr_on fm) (fr_sel fm)
                             | None => false
                             end) ms &&
           reach_ok g S frs ms
@@ -223,18 +224,18 @@ Fixpoint sels_okM (fuel : nat) (cov : bool) (C : cfg) (S : schema) (frs : list f
       end
   end.
 
-Definition mixin_ok (g : nat) (cov : bool) (C : cfg) (S : schema) (frs : list fragdef) (rt : string)
-           (m : string) : bool :=
+Definition mixin_ok (g : nat) (cov : bool) (C : cfg) (S : schema) (frs : list fragdef) (mx : list string)
+           (rt : string) (m : string) : bool :=
   match lookup_frag frs m with
   | Some fm =>
-      (match fr_mixins fm with [] => true | _ => false end) &&
+      forallb (fun b => mem b mx) (fr_mixins fm) &&
       negb (unpack_fragment S fm None) &&
-      sels_okM g cov C S frs false false rt (fr_on fm) (fr_sel fm)
+      sels_okM g cov C S frs mx false false rt (fr_on fm) (fr_sel fm)
   | None => false
   end.
 
-Lemma sels_okM_S g cov C S frs top abs rt r sels :
-  sels_okM (Datatypes.S g) cov C S frs top abs rt r sels =
+Lemma sels_okM_S g cov C S frs mx top abs rt r sels :
+  sels_okM (Datatypes.S g) cov C S frs mx top abs rt r sels =
   match flattenM g S frs rt r false sels with
   | Some (fns, ms) =>
       (if top then
@@ -243,20 +244,20 @@ Lemma sels_okM_S g cov C S frs top abs rt r sels :
          | None => false
          end
        else true) &&
-      forallb (field_ok (sels_okM g cov C S frs true) g cov S abs rt r) fns &&
-      forallb (mixin_ok g cov C S frs rt) ms &&
+      forallb (field_ok (sels_okM g cov C S frs mx true) g cov S mx abs rt r) fns &&
+      forallb (mixin_ok g cov C S frs mx rt) ms &&
       reach_ok g S frs ms
   | None => false
   end.
 Proof. reflexivity. Qed.
 
-Lemma sels_okM_inv g cov C S frs top abs rt r sels :
-  sels_okM g cov C S frs top abs rt r sels = true ->
+Lemma sels_okM_inv g cov C S frs mx top abs rt r sels :
+  sels_okM g cov C S frs mx top abs rt r sels = true ->
   exists g' fns ms, g = Datatypes.S g' /\ flattenM g' S frs rt r false sels = Some (fns, ms) /\
     (top = true -> exists l, collect g' S frs rt false sels = Some l /\ keys_ok C (map n_key l) = true /\
                              (cov = true -> NoDup (map (py_field_name C) (map n_key l)))) /\
-    forallb (field_ok (sels_okM g' cov C S frs true) g' cov S abs rt r) fns = true /\
-    forallb (mixin_ok g' cov C S frs rt) ms = true /\
+    forallb (field_ok (sels_okM g' cov C S frs mx true) g' cov S mx abs rt r) fns = true /\
+    forallb (mixin_ok g' cov C S frs mx rt) ms = true /\
     reach_ok g' S frs ms = true.
 Proof.
   destruct g as [|g']; [discriminate|]. rewrite sels_okM_S. intro H.
@@ -270,19 +271,19 @@ Proof.
 Qed.
 
 (* without spreads the mixin guard gives what abstract positions need *)
-Lemma sels_okM_ok_inv g cov C S frs : forall b rt r sels,
-  sels_okM g cov C S frs true b rt r sels = true -> no_spread g sels = true ->
-  exists g' fns, flatten g' S frs rt r sels = Some fns /\ keys_ok C (map field_key fns) = true /\
+Lemma sels_okM_ok_inv g cov C S frs mx : forall b rt r sels,
+  sels_okM g cov C S frs mx true b rt r sels = true -> no_spread g sels = true ->
+  exists g' fns, flatten g' S frs rt r sels = Some fns /\ keys_okD C fns = true /\
                  (cov = true -> NoDup (map (fun f => py_field_name C (field_key f)) fns)).
 Proof.
   intros b rt r sels H Hns.
-  destruct (sels_okM_inv _ _ _ _ _ _ _ _ _ _ H) as [g' [fns [ms [_ [Hfl [Htop _]]]]]].
+  destruct (sels_okM_inv _ _ _ _ _ _ _ _ _ _ _ H) as [g' [fns [ms [_ [Hfl [Htop _]]]]]].
   destruct (Htop eq_refl) as [l [Hc [Hk Hn]]].
   destruct (flattenM_both_ex S frs rt _ _ _ _ _ _ Hfl g' (le_n _)) as [Hres _].
   pose proof (resolve_no_spread _ _ _ _ _ _ _ _ Hns Hres) as Hm. simpl in Hm. subst ms.
   assert (Hf : flatten g' S frs rt r sels = Some fns) by (apply flatten_M; exact Hfl).
   pose proof (flatten_collect_det _ _ _ _ _ _ _ _ _ Hf Hc) as El. subst l.
-  rewrite map_map in Hk, Hn. exists g', fns. split; [exact Hf|]. split; [exact Hk|].
+  rewrite map_map in Hk, Hn. exists g', fns. split; [exact Hf|]. split; [apply keys_ok_D, Hk|].
   intro Hcov. specialize (Hn Hcov). rewrite map_map in Hn. exact Hn.
 Qed.
 
@@ -298,15 +299,15 @@ Proof.
 Qed.
 
 (* one level of the generator on a selection set of the mixin sub-language *)
-Lemma level_invM C S frs fuel pub cn rt r sels at_ tv out pub' g fns ms :
-  parse_type_def (Datatypes.S fuel) C S frs pub cn r sels at_ [] tv = Ok (out, pub', false) ->
+Lemma level_invM C S frs fuel pub cn rt r sels at_ eb tv out pub' g fns ms :
+  parse_type_def (Datatypes.S fuel) C S frs pub cn r sels at_ eb tv = Ok (out, pub', false) ->
   flattenM g S frs rt r false sels = Some (fns, ms) ->
   (at_ = true -> has_typename sels = true) ->
   exists f2 pfl extra kept,
     fuel = Datatypes.S f2 /\
     fields_run (parse_type_def fuel C S frs) C S frs fuel cn r tv at_ fns (pub ++ [cn]) pfl extra pub' false /\
     incl kept ms /\ remove_inherited fuel S frs ms = Ok kept /\
-    out = {| c_name := cn; c_bases := class_bases ms kept []; c_fields := pfl |} :: extra.
+    out = {| c_name := cn; c_bases := class_bases ms kept eb; c_fields := pfl |} :: extra.
 Proof.
   intros H Hfl Hat. simpl in H. apply body_inv in H.
   destruct H as [[_ [_ [_ H]]] | [M [fields0 [mixins [pfl [extra [Hres [Hrun [kept [Hk Hout]]]]]]]]]];
@@ -324,6 +325,9 @@ Qed.
 (* Main induction (on the guard's fuel, which bounds both nesting and mixin depth)                *)
 Section Mix.
   Variables (C : cfg) (S : schema) (frs : list fragdef) (F : nat) (cls : list pclass) (cov : bool).
+  (* the @mixin names of the document: none of them is a class of the table *)
+  Variable mx : list string.
+  Hypothesis G0 : mx_ok cls mx = true.
   (* the class table of the run: pairwise distinct names, no BaseModel, and every fragment that gets a
      class was generated without a skip into this table *)
   Hypothesis G1 : NoDup (map c_name cls).
@@ -351,46 +355,49 @@ Section Mix.
                 (forall n', n' >= F + g + 1 -> forall pf, In pf pfs ->
                             field_check (accepts n' cls (schema_enums S)) kv pf = true).
 
-  Theorem mix_main : forall g fuel pub cn rt r sels at_ tv top out pub' k l N kv fc,
-    fuel <= F -> parse_type_def fuel C S frs pub cn r sels at_ [] tv = Ok (out, pub', false) ->
-    sels_okM g cov C S frs top at_ rt r sels = true -> tv_ok rt tv ->
-    (at_ = true -> has_typename sels = true) -> table_ok cls out ->
+  Theorem mix_main : forall g fuel pub cn rt r sels at_ eb tv top out pub' k l N kv fc,
+    fuel <= F -> parse_type_def fuel C S frs pub cn r sels at_ eb tv = Ok (out, pub', false) ->
+    sels_okM g cov C S frs mx top at_ rt r sels = true -> tv_ok rt tv ->
+    (at_ = true -> has_typename sels = true) -> table_ok cls out -> harmless cls eb ->
     collect k S frs rt false sels = Some l -> incl l N -> amb N rt kv fc ->
     class_good g cn kv.
   Proof.
     induction g as [|g IH];
-      intros fuel pub cn rt r sels at_ tv top out pub' k l N kv fc HF Hp Hok Htv Hat Htab Hcol HlN Hamb;
+      intros fuel pub cn rt r sels at_ eb tv top out pub' k l N kv fc HF Hp Hok Htv Hat Htab Heb Hcol HlN Hamb;
       [discriminate Hok|].
-    destruct (sels_okM_inv _ _ _ _ _ _ _ _ _ _ Hok) as [g' [fns [ms [Eg [Hfl [_ [Hfields [Hmix _]]]]]]]].
+    destruct (sels_okM_inv _ _ _ _ _ _ _ _ _ _ _ Hok) as [g' [fns [ms [Eg [Hfl [_ [Hfields [Hmix _]]]]]]]].
     inversion Eg; subst g'. clear Eg.
     destruct fuel as [|fuel']; [discriminate Hp|].
-    destruct (level_invM _ _ _ _ _ _ _ _ _ _ _ _ _ _ _ _ Hp Hfl Hat) as [f2 [pfl [extra [kept [Ef [Hrun [Hkept [_ Hout]]]]]]]].
+    destruct (level_invM _ _ _ _ _ _ _ _ _ _ _ _ _ _ _ _ _ Hp Hfl Hat) as [f2 [pfl [extra [kept [Ef [Hrun [Hkept [_ Hout]]]]]]]].
     destruct Hamb as [HkN [HkvN HspecN]].
     destruct (flattenM_collect_mix _ _ _ _ _ _ _ _ _ _ _ Hfl Hcol) as [Hown Hmixn].
-    assert (Hc0 : In {| c_name := cn; c_bases := class_bases ms kept []; c_fields := pfl |} out)
+    assert (Hc0 : In {| c_name := cn; c_bases := class_bases ms kept eb; c_fields := pfl |} out)
       by (rewrite Hout; left; reflexivity).
     destruct (Htab _ Hc0) as [Hl Hnb]. simpl in Hl, Hnb.
     (* the base classes *)
-    assert (HB : forall b, In b (class_bases ms kept []) -> class_good g b kv).
-    { intros b Hb. destruct (class_bases_In _ _ _ Hb) as [E | [m [Hm E]]]; subst b; [| apply Hkept in Hm].
+    assert (HB : forall b, In b (class_bases ms kept eb) -> class_good g b kv).
+    { intros b Hb. destruct (class_bases_In _ _ _ _ Hb) as [E | [[m [Hm E]] | Hbe]];
+        [subst b | subst b; apply Hkept in Hm |].
       - exists []. split; [intros j Hj; apply mro_basemodel; lia | intros n' _ pf []].
       - rewrite forallb_forall in Hmix. specialize (Hmix m Hm). unfold mixin_ok in Hmix.
         destruct (lookup_frag frs m) as [fm|] eqn:Elf; [| discriminate Hmix].
         apply andb_true_iff in Hmix as [Hmix Hokm]. apply andb_true_iff in Hmix as [Hnm Hun].
         apply negb_true_iff in Hun.
-        destruct (fr_mixins fm) eqn:Emx; [| discriminate Hnm].
+        pose proof (mx_ok_harmless _ _ _ G0 Hnm) as Hhm.
         unfold lookup_frag in Elf. pose proof (find_some _ _ Elf) as [Hfin Hfn].
         apply String.eqb_eq in Hfn.
-        destruct (G2 fm Hfin Hun) as [outm [pubm [Hrunm Hinm]]]. rewrite Emx, Hfn in Hrunm.
+        destruct (G2 fm Hfin Hun) as [outm [pubm [Hrunm Hinm]]]. rewrite Hfn in Hrunm.
         destruct (Hmixn m Hm) as [fm' [k' [lm [Elf' [Hcm Hilm]]]]].
         unfold lookup_frag in Elf'. rewrite Elf in Elf'. inversion Elf'; subst fm'.
-        eapply (IH F [] (pascal_s m) rt (fr_on fm) (fr_sel fm) false None false outm pubm k' lm N kv fc);
+        eapply (IH F [] (pascal_s m) rt (fr_on fm) (fr_sel fm) false (fr_mixins fm) None false outm pubm k' lm N kv fc);
           eauto.
         + left; reflexivity.
         + discriminate.
         + apply table_of_incl, Hinm.
         + eapply incl_tran; eauto.
-        + repeat split; auto. }
+        + repeat split; auto.
+      - exists []. split; [| intros n' _ pf []].
+        intros j Hj. destruct j as [|j']; [lia|]. apply mro_empty, Heb, Hbe. }
     destruct (mro_with_bases cls cn _ (g + 2) Hl Hnb) as [pfs [Hmro Hpfs]].
     { intros b Hb. destruct (HB b Hb) as [pb [Hpb _]]. exists pb. exact Hpb. }
     exists pfs. split; [intros j Hj; apply Hmro; lia|].
@@ -403,17 +410,18 @@ Section Mix.
       assert (HFF : Forall2 (field_facts C (accepts (Datatypes.S n1) cls (schema_enums S)) kv) fns pfl).
       { eapply (level_facts C S frs fuel' g cov cls (accepts (Datatypes.S n1) cls (schema_enums S)) (fun _ => True)
                             class_accepts (accepts n1 cls (schema_enums S)) (mro_fields n1 cls)
-                            (sels_okM g cov C S frs true) (sels_okM_ok_inv g cov C S frs))
+                            (sels_okM g cov C S frs mx true) mx (harmless cls)
+                            (fun eb0 => mx_ok_harmless cls mx eb0 G0) (sels_okM_ok_inv g cov C S frs mx))
           with (K := map n_key N) (k := fc);
           try eassumption; try reflexivity; auto.
         - intros m j H1 H2. apply (scalar_leaf_accepts C S); auto.
         - intros m vs j H1 H2. eapply enum_leaf_accepts; eauto.
         - intros tvs s Hs. simpl. apply mem_In. apply (proj2 (sort_strings_In _ _)), Hs.
-        - intros c Hlc Hnc Hbc. destruct n1 as [|[|n3]]; try lia. apply mro_simple; auto.
+        - intros c eb0 Hlc Hnc Hbc Hh. destruct n1 as [|[|n3]]; try lia. eapply mro_harmless; eauto.
         - eauto.
         - (* nested classes *)
-          intros pb cn2 rt2 r2 sels2 at2 tvs out2 pub2 fc2 kv2 P1 P2 P3 P4 P5 P6 _.
-          destruct (sels_okM_inv _ _ _ _ _ _ _ _ _ _ P2) as [g'' [fns2 [ms2 [_ [_ [Htop2 _]]]]]].
+          intros pb cn2 rt2 r2 sels2 at2 eb2 tvs out2 pub2 fc2 kv2 P0 P1 P2 P3 P4 P5 P6 _.
+          destruct (sels_okM_inv _ _ _ _ _ _ _ _ _ _ _ P2) as [g'' [fns2 [ms2 [_ [_ [Htop2 _]]]]]].
           destruct (Htop2 eq_refl) as [l2' [Hc2' [Hk2 _]]].
           unfold obj_conf, conf_obj_with in P6. rewrite collect_scopes_single in P6.
           destruct (collect fc2 S frs rt2 false sels2) as [l2|] eqn:Ec2; [| discriminate P6].
@@ -421,7 +429,7 @@ Section Mix.
           rewrite conf_obj_nodes in P6 by (eapply keys_ok_nodup; eauto).
           simpl in P6. apply andb_true_iff in P6 as [Q1 Q2]. rewrite forallb_forall in Q1, Q2.
           assert (Hgood : class_good g cn2 kv2).
-          { eapply (IH fuel' pb cn2 rt2 r2 sels2 at2 (Some tvs) true out2 pub2 fc2 l2 l2 kv2 fc2); eauto.
+          { eapply (IH fuel' pb cn2 rt2 r2 sels2 at2 eb2 (Some tvs) true out2 pub2 fc2 l2 l2 kv2 fc2); eauto.
             - lia.
             - right. eauto.
             - apply incl_refl.
@@ -447,23 +455,23 @@ End Mix.
 
 (* ------------------------------------------------------------------------------------------- *)
 (* Operation level                                                                              *)
-Definition op_okM (g : nat) (cov : bool) (C : cfg) (S : schema) (frs : list fragdef) (root : string)
-           (sels : list sel) : bool :=
-  is_object S root && sels_okM g cov C S frs true false root root sels.
+Definition op_okM (g : nat) (cov : bool) (C : cfg) (S : schema) (frs : list fragdef) (mx mixins : list string)
+           (root : string) (sels : list sel) : bool :=
+  is_object S root && forallb (fun b => mem b mx) mixins && sels_okM g cov C S frs mx true false root root sels.
 
-Theorem op_accepts_mix C S frs F kind name sels root own pub' cls g cov fc j n :
+Theorem op_accepts_mix C S frs F kind name mixins sels root own pub' cls g cov mx fc j n :
   root_type_name S kind = Ok root ->
-  op_parse F C S frs kind name [] sels = Ok (own, pub', false) ->
-  all_classes F C S frs (DOp kind name [] sels) = Ok cls ->
-  op_okM g cov C S frs root sels = true ->
+  op_parse F C S frs kind name mixins sels = Ok (own, pub', false) ->
+  all_classes F C S frs (DOp kind name mixins sels) = Ok cls ->
+  op_okM g cov C S frs mx mixins root sels = true -> mx_ok cls mx = true ->
   nodupb (map c_name cls) = true -> no_basemodel cls = true -> frag_no_skip F C S frs = true ->
   conf_op fc S frs root sels j = true ->
   n >= F + g + 2 ->
   accepts n cls (schema_enums S) (AClass (pascal_s name)) j = true.
 Proof.
-  intros Hroot Hop Hall Hok Hnd Hnb Hfs Hconf Hn.
+  intros Hroot Hop Hall Hok Hmx Hnd Hnb Hfs Hconf Hn.
   apply nodupb_NoDup in Hnd.
-  unfold op_okM in Hok. apply andb_true_iff in Hok as [Hobj Hsels].
+  unfold op_okM in Hok. apply andb_true_iff in Hok as [Hobj Hsels]. apply andb_true_iff in Hobj as [Hobj Hmix].
   destruct (conf_op_obj _ _ _ _ _ _ Hobj Hconf) as [kv [k [Ej Hc]]]. subst j.
   destruct (all_classes_prefix _ _ _ _ _ _ Hall) as [own' [rest [Hr Ecls]]].
   simpl in Hr. rewrite Hop in Hr. simpl in Hr. inversion Hr; subst own'. clear Hr.
@@ -471,7 +479,7 @@ Proof.
   unfold op_parse in Hop. rewrite Hroot in Hop. simpl in Hop.
   assert (HF1 : F >= 1) by (destruct F; [discriminate Hop | lia]).
   pose proof (frag_runs _ _ _ _ _ _ Hall Hfs) as G2.
-  destruct (sels_okM_inv _ _ _ _ _ _ _ _ _ _ Hsels) as [g' [fns [ms [_ [_ [Htop _]]]]]].
+  destruct (sels_okM_inv _ _ _ _ _ _ _ _ _ _ _ Hsels) as [g' [fns [ms [_ [_ [Htop _]]]]]].
   destruct (Htop eq_refl) as [l' [Hc' [Hk _]]].
   unfold obj_conf, conf_obj_with in Hc. rewrite collect_scopes_single in Hc.
   destruct (collect k S frs root false sels) as [l|] eqn:Ec; [| discriminate Hc].
@@ -479,11 +487,12 @@ Proof.
   rewrite conf_obj_nodes in Hc by (eapply keys_ok_nodup; eauto).
   simpl in Hc. apply andb_true_iff in Hc as [Q1 Q2]. rewrite forallb_forall in Q1, Q2.
   assert (Hgood : class_good S F cls g (pascal_s name) kv).
-  { eapply (mix_main C S frs F cls cov Hnd Hnb G2 g F [] (pascal_s name) root root sels false None true
+  { eapply (mix_main C S frs F cls cov mx Hmx Hnd Hnb G2 g F [] (pascal_s name) root root sels false mixins None true
                      own pub' k l l kv k); eauto.
     - left; reflexivity.
     - discriminate.
     - apply (table_of_incl cls Hnd Hnb), Hown.
+    - eapply mx_ok_harmless; eauto.
     - apply incl_refl.
     - split; [exact Hk|]. split; [intros p Hp; apply mem_In, Q1, Hp | exact Q2]. }
   destruct Hgood as [pfs [Hm Hchk]].
